@@ -124,6 +124,7 @@ static void torture(long long idx, int nreaders, unsigned updates, bool joiners,
 
 int main(int argc, char **argv) {
 	parse_args(argc, argv, "c11_tsan");
+	start_inconclusive_watchdog(opt.thorough() ? 3000 : 150);
 	rec.rule = "a case is one run of an RCU torture (1 updater + 2-5 readers, optionally agents leaving/joining and a quiescent_barrier() caller) with plain reader data under ThreadSanitizer; distinct = (configuration, run index)";
 	uint64_t runs = scaled(5, 80);
 	for(uint64_t i = 0; i < runs; i++) {
